@@ -49,15 +49,41 @@ class Fn:
     def __init__(self, module, qual, node, cls):
         self.module, self.qual, self.node, self.cls = module, qual, node, cls
         self.reads, self.calls_bare, self.calls_meth, self.calls_mod = set(), set(), set(), set()
+        self.calls_self = set()
+        self.value_meths = set()
         self.is_property = any((SS.dotted(d) or "").split(".")[-1] in ("property", "cached_property") for d in node.decorator_list)
 
 
 def scan(repo):
+    external = {}           # module -> names bound by imports of NON-package modules (np, pd, os, re, json ...)
+
+    def receiver_kind(node, fn, m):
+        """what the ast gives away about the receiver of a method call / attribute load"""
+        n = node
+        while isinstance(n, (ast.Attribute, ast.Subscript)):
+            n = n.value
+        if isinstance(n, (ast.Constant, ast.JoinedStr, ast.List, ast.Dict, ast.Set, ast.Tuple, ast.ListComp, ast.DictComp, ast.SetComp,
+                          ast.BinOp, ast.Compare)):
+            return "external"
+        if isinstance(n, ast.Call) and isinstance(n.func, ast.Attribute):
+            r = n.func.value
+            while isinstance(r, (ast.Attribute, ast.Subscript)):
+                r = r.value
+            if isinstance(r, ast.Name) and r.id in external.get(m, ()):
+                return "external"                                # np.array(...).view(...)
+        if isinstance(n, ast.Name):
+            if n.id in external.get(m, ()):
+                return "external"
+            if fn.cls and fn.node.args.args and n.id == fn.node.args.args[0].arg and node is n:
+                return "self"
+        return "unknown"
+
     pkg = os.path.join(repo, "fastparquet")
     files = [f for f in sorted(os.listdir(pkg)) if f.endswith(".py")]
     mods = {f[:-3] for f in files}
     fns = {}            # (module, qual) -> Fn
     by_method = {}      # simple method name -> [(module, qual)]
+    class_bases = {}    # class name -> base class names (package-local inheritance)
     by_modfunc = {}     # (module, name) -> (module, qual)
     properties = set()
     imports = {}        # module -> {local name: ("mod", module) | ("func", module, name)}
@@ -67,6 +93,12 @@ def scan(repo):
         tree = ast.parse(open(os.path.join(pkg, f)).read(), filename=f)
         imports[m] = {}
         mutable_globals[m] = set()
+        external[m] = set()
+        for st in ast.walk(tree):
+            if isinstance(st, ast.Import):
+                external[m] |= {(a.asname or a.name).split(".")[0] for a in st.names if not a.name.startswith("fastparquet")}
+            elif isinstance(st, ast.ImportFrom) and st.level == 0 and not (st.module or "").startswith("fastparquet"):
+                external[m] |= {(a.asname or a.name) for a in st.names}
         for st in tree.body:
             if isinstance(st, ast.ImportFrom) and (st.level > 0 or (st.module or "").startswith("fastparquet")):
                 base = (st.module or "").replace("fastparquet.", "").replace("fastparquet", "")
@@ -76,10 +108,11 @@ def scan(repo):
                         imports[m][local] = ("mod", a.name)
                     elif base.split(".")[0] in mods:
                         imports[m][local] = ("func", base.split(".")[0], a.name)
-            elif isinstance(st, ast.Assign):
-                for t in st.targets:
-                    if isinstance(t, ast.Name) and SS.vkind(st.value) != "const":
-                        mutable_globals[m].add(t.id)
+            elif isinstance(st, (ast.Assign, ast.AnnAssign, ast.AugAssign)):
+                for t in (st.targets if isinstance(st, ast.Assign) else [st.target]):
+                    for e_ in ([t] if not isinstance(t, (ast.Tuple, ast.List)) else t.elts):
+                        if isinstance(e_, ast.Name):
+                            mutable_globals[m].add(e_.id)       # every module-level name (a rebound constant is state too)
 
         def reg(node, cls, prefix):
             qual = prefix + ((cls + ".") if cls else "") + node.name
@@ -99,6 +132,7 @@ def scan(repo):
             if isinstance(st, (ast.FunctionDef, ast.AsyncFunctionDef)):
                 reg(st, None, "")
             elif isinstance(st, ast.ClassDef):
+                class_bases[st.name] = [SS.dotted(b_) or "" for b_ in st.bases]
                 for b in st.body:
                     if isinstance(b, (ast.FunctionDef, ast.AsyncFunctionDef)):
                         reg(b, st.name, "")
@@ -121,6 +155,10 @@ def scan(repo):
                 elif isinstance(f, ast.Attribute):
                     if isinstance(f.value, ast.Name) and imports[m].get(f.value.id, (None,))[0] == "mod":
                         fn.calls_mod.add((imports[m][f.value.id][1], f.attr))
+                    elif receiver_kind(f.value, fn, m) == "external":
+                        pass                                    # np.x.y(...), "".join(...), [..].append(...): not a package object
+                    elif receiver_kind(f.value, fn, m) == "self":
+                        fn.calls_self.add(f.attr)               # self.m(...): the own class (and its relatives)
                     else:
                         fn.calls_meth.add(f.attr)
                         fn.calls_meth.update({"copy": ("__copy__",), "deepcopy": ("__deepcopy__",), "dumps": ("__getstate__", "__reduce_ex__"),
@@ -133,10 +171,17 @@ def scan(repo):
                     if n.attr in mutable_globals.get(imports[m][n.value.id][1], ()):
                         fn.reads.add(n.attr + "[*]")
                 fn.reads.add(n.attr)
+                if id(n) not in callee_nodes and n.attr not in properties and receiver_kind(n.value, fn, m) != "external":
+                    fn.value_meths.add(n.attr)      # a bound method taken as a value (codec().loads) may be called later
                 if n.attr in properties and id(n) not in callee_nodes:
-                    fn.calls_meth.add(n.attr)
+                    rk = receiver_kind(n.value, fn, m)
+                    if rk == "self":
+                        fn.calls_self.add(n.attr)
+                    elif rk != "external":
+                        fn.calls_meth.add(n.attr)
             elif isinstance(n, ast.Subscript) and isinstance(n.ctx, ast.Load):
-                fn.calls_meth.add("__getitem__")            # implicit dispatch: x[i] may be a package class's __getitem__
+                if receiver_kind(n.value, fn, m) != "external":
+                    fn.calls_meth.add("__getitem__")        # implicit dispatch: x[i] may be a package class's __getitem__
                 if isinstance(n.slice, ast.Constant) and isinstance(n.slice.value, str) and n.slice.value.isidentifier():
                     fn.reads.add(n.slice.value)
             elif isinstance(n, ast.Subscript):
@@ -153,7 +198,11 @@ def scan(repo):
             elif isinstance(n, ast.Name) and isinstance(n.ctx, ast.Load):
                 if n.id in mutable_globals[m]:
                     fn.reads.add(n.id + "[*]")
+                imp_ = imports[m].get(n.id)
+                if imp_ and imp_[0] == "func" and imp_[2] in mutable_globals.get(imp_[1], ()):
+                    fn.reads.add(imp_[2] + "[*]")           # from .util import ops: a load of `ops` reads util.ops
                 fn.calls_bare.add(("value", n.id))       # a function used as a value (table entry, callback) may be called
+    scan.class_bases = class_bases
     return fns, by_method, by_modfunc, imports
 
 
@@ -185,6 +234,20 @@ def build(repo, inv=None):
             continue
         writes.setdefault((s["module"], s["func"]), []).append({"slot": slot, "pattern": s["pattern"], "base": s["base"], "line": s["line"], "file": s["file"]})
 
+    bases = scan.class_bases
+
+    def related_classes(cls):
+        """the class, its package-local ancestors and descendants"""
+        fam, todo = set(), [cls]
+        while todo:
+            c = todo.pop()
+            if c in fam or c is None:
+                continue
+            fam.add(c)
+            todo += [b_.split(".")[-1] for b_ in bases.get(c, [])]
+            todo += [k_ for k_, bs in bases.items() if c in [b_.split(".")[-1] for b_ in bs]]
+        return fam
+
     def callees(key):
         fn = fns[key]
         out = set()
@@ -205,9 +268,20 @@ def build(repo, inv=None):
                             out.add(cand)
         for mname in fn.calls_meth:
             out.update(by_method.get(mname, []))
+        if fn.calls_self:
+            fam = related_classes(fn.cls)
+            for mname in fn.calls_self:
+                cands = [c for c in by_method.get(mname, []) if c[1].rsplit(".", 1)[0] in fam]
+                out.update(cands if cands else by_method.get(mname, []))     # not found in the family: fall back to every class
         for mod, name in fn.calls_mod:
             if (mod, name) in by_modfunc:
                 out.add(by_modfunc[(mod, name)])
+            for cand in by_method.get("__init__", []):          # mod.Class(...): the constructor
+                if cand == (mod, name + ".__init__"):
+                    out.add(cand)
+        for mname in fn.value_meths:
+            if not mname.startswith("__"):
+                out.update(by_method.get(mname, []))
         return out
     rows = []
     for op, entries in ENTRIES.items():
@@ -223,9 +297,13 @@ def build(repo, inv=None):
         for k in seen:
             reads |= fns[k].reads
             ws += writes.get(k, [])
-        rows.append({"op": op, "functions": len(seen), "reads": sorted(reads), "writes": ws, "missing_entries": missing})
+        rows.append({"op": op, "functions": len(seen), "reads": sorted(reads), "writes": ws, "missing_entries": missing,
+                     "reach": sorted("%s:%s" % k for k in seen)})
     slots = sorted(set(s for r in rows for s in r["reads"]) | set(w["slot"] for r in rows for w in r["writes"]))
-    return {"rows": rows, "slots": slots}
+    ranges = {}
+    for (m_, q_), fn in fns.items():
+        ranges.setdefault(m_ + ".py", []).append([fn.node.lineno, getattr(fn.node, "end_lineno", fn.node.lineno), "%s:%s" % (m_, q_)])
+    return {"rows": rows, "slots": slots, "func_ranges": ranges}
 
 
 def offenders(tab):
